@@ -4,7 +4,7 @@ from the statements (never from the code).  It is used
   (a) as the native replay after a contract obligation was refuted (find a failing input on the real code), and
   (b) as a *bounded stand-in* (never counted as proved) that keeps deciding when a function was restructured so
       that its sidecar contract no longer applies.
-Bound: plans of at most 8 nodes, histories of at most 6 steps, `cases` seeded cases (VERIF_SEED).
+Bound: plans of at most 8 nodes, histories of at most 6 steps, store times in three eras (before / around / after the wall clock), `cases` seeded cases (VERIF_SEED).
 Run:  PYTHONPATH=<tree>/src python sysprobe_script.py  [env UJVC_PROBE_CASES, VERIF_SEED, UJVC_PROBES=C02,C03,...]
 Exit 1 and lines 'VIOLATED <property> ...' when a statement is violated.
 """
@@ -220,6 +220,10 @@ SCRIPT = textwrap.dedent(
     # ---------------------------------------------------------------- one history ----
     def history(case):
         rnd = random.Random(SEED * 100003 + case)
+        # the era the store times of this history lie in: what is out of date depends on the ORDER of the times only, never on how they relate to
+        # the wall clock of the machine that plans the run (times in the future: clock skew between machines, restored backups) - every third history
+        # lives entirely after the probe's wall clock, one in six long before it
+        CLOCK[0] = dt.datetime((2020, 2020, 2020, 2190, 2190, 1999)[case % 6], 1, 1) + dt.timedelta(seconds=case)
         scn = Scn(rnd); rec = Rec()
         with_reg = rnd.random() < 0.75
         if not with_reg:
